@@ -249,7 +249,7 @@ theorem assign_w2 : assignAt w2 0 ckt = cktI := by simp [assignAt, w2, ckt, cktI
 theorem assign_sum : assignAt (sumW [w1, w2]) 0 ckt = ckt := by simp [assignAt, sumW, w1, w2, ckt, Cpt.mapSrc]
 
 theorem nv_groups_superpose : Solves .dc (0 : ℚ) ckt (sumX [xV, xI]) := by
-  have h := groups_superpose .dc (0 : ℚ) ckt [w1, w2] [xV, xI]
+  have h := groups_superpose_partial .dc (0 : ℚ) ckt [w1, w2] [xV, xI]
     (.cons (by rw [assign_w1]; exact solves_V) (.cons (by rw [assign_w2]; exact solves_I) .nil))
   rwa [assign_sum] at h
 end
@@ -368,8 +368,12 @@ theorem nv_grouping_invariant_laplace :
     decompLap (fun _ => (1 / 2 : ℚ)) 1 (decompose [.dc 2, .ac 3 3 (-4), .tr 0 5, .ac 3 1 0]) =
       decompLap (fun _ => (1 / 2 : ℚ)) 1 (decompose [.ac 3 3 (-4), .dc 2, .tr 0 5, .ac 3 1 0]) :=
   grouping_invariant_laplace _ 1 _ _ (List.Perm.swap _ _ _)
+    ⟨one_ne_zero, by
+      intro t ht w a b h
+      simp only [List.mem_cons, List.mem_nil_iff, or_false] at ht
+      rcases ht with rfl | rfl | rfl | rfl <;> cases h <;> norm_num⟩
 
-/-- REMARK (class e, harmless): `reassemble_laplace` carries no guard, so it also "holds" AT the poles s = 0 and
+/-- REMARK (class e, harmless): `reassemble_laplace_linear` carries no guard, so it also "holds" AT the poles s = 0 and
     s² + ω² = 0, where both sides are sums of totalised quotients `x / 0 = 0`: at s = 0 the dc part contributes 0. -/
 example : decompLap (fun _ => (0 : ℚ)) 0 (decompose [.dc 2, .dc 5]) = 0 := by
   norm_num [decompLap, decompose, step, Decompose.sumK]
